@@ -80,7 +80,7 @@ def post(ctx, rc, bpfdir, objects, asan=None):
             "no_longer_checks": ["corr:kernel test-run and native run of %s disagree" % ",".join(objects)], "first": first})
         print("VIOLATION property=%s replay=%s no-failing-input-found" % (ctx.pid, rp))
         rc = 1
-    ev = os.path.join(verif.VERIF, "evidence", ctx.pid + ".json")
+    ev = verif.evidence_path(ctx)
     if not ctx.replay and os.path.exists(ev):
         e = json.load(open(ev))
         e["coverage"].update(agg)
